@@ -118,8 +118,13 @@ pub fn run_case<G: AffineRepr>(run: u64, case: &Case, st: &mut Stats) {
     });
     st.steps += 1;
     let batch_ok = match res {
-        Err(_) => {
-            st.probe("real-panicked(C08)");
+        Err(m) => {
+            // every member returned a verdict on its own, so the batch must return one too
+            viol(
+                st,
+                "batch-returns-a-verdict",
+                format!("batch_verify panicked ({}) although every member returns a verdict individually: {:?} (capacity history {:?})", m, indiv, case.cap),
+            );
             return;
         }
         Ok(r) => r.is_ok(),
